@@ -843,6 +843,20 @@ def run_c13(path, seedh, op, fail_at, F):
         except Exception as ex:
             F.note("after an I/O error at %s the file is undecodable (%s)" % (where, type(ex).__name__), dict(kind="c13", seed=seedh, op=op, fail_at=list(fail_at)))
             got = None
+        # answers that a valid index gives without reading storage: each must agree with the file as it is now, or raise
+        if got is not None:
+            for what, fn, exp in (("len(db)", lambda: len(db), len(got)),
+                                  ("count(all)", lambda: db.count(MeasurementQuery() != "\0"), len(got)),
+                                  ("get_measurements()", lambda: db.get_measurements(), sorted({g[1] for g in got}))):
+                try:
+                    ans = fn()
+                    now = read_file(path)  # (a read may first write out rows that were still buffered: compare with the file as it is after the call)
+                except Exception:
+                    continue  # failing with an error is allowed
+                exp = len(now) if isinstance(exp, int) else sorted({g[1] for g in now})
+                if ans != exp:
+                    F.note("after an I/O error at %s the live database silently answers %s = %r while its file holds %r" % (where, what, ans, exp), dict(kind="c13", seed=seedh, op=op, fail_at=list(fail_at)))
+                    break
         # the live object: answers must be consistent with its own storage, or raise
         try:
             live = [pkey(p) for p in db.all(sorted=False)]
